@@ -4,6 +4,12 @@ exact-size heap blocks):
   :strlen a | :strcmp a b | :strncmp a b n | :strstr a b | :memcmp a b n | :contains a b | :containsnc a b | :starts a b | :ends a b
   :count a b | :eq a b | :eqnc a b | :find a ch | :findfrom a start ch | :substr a begin amount | :substr1 a begin | :lower a
   :replc a c1 c2 | :ordinal n | ... (second group, see GROUP2) | :atoi a | :atou a
+  life-cycle group (GROUP4; every scenario -- also the ones above -- runs inside ONE recorded window of the string allocator in which
+  all its objects are constructed and destroyed):
+  :repeat a k | :pad a b ch | :split a delimiter-char | :fromtill a c1 c2 | :masked value mask bytecount | :binary bytes
+  :seq n op_1 .. op_n      operations applied one after the other to the same three objects obj[0..2], which are destroyed at the end:
+      :set i a | :asg i j | :app i j | :appc i a | :low i j | :sub i j begin amount | :rc i c1 c2 | :rs i from to | :prt i j
+      :pad i j ch | :fmt i a b | :rep i a k | :plus i j k
 Observation: <value> <independent reference (std::string/libc) agrees> <every buffer returned once with its size>."""
 import itertools
 from vlib import tz, tb
@@ -20,6 +26,11 @@ RULE = ("per operation: exhaustive over strings of length 0..4 over {a,b} x patt
         "short-escape, ToLower) looks at it: AtoI/AtoU on [c,7], [7,c,3], [blank,c,7], [sign,c,5], lowerCase/printable of [c], equalsNoCase/containsNoCase of c against "
         "c^0x20; AtoI/AtoU on sign/blank/digit boundary strings (empty, lone and double signs, every C blank, 0x08/0x0E, '/' and ':', leading zeros, 9 digits, "
         "INT_MAX, UINT_MAX) and random blank-sign-digits-junk strings whose digit run fits the result type; "
+        "life cycle (allocation pairing incl. the objects alive at the end): padStringsToSameLength exhaustively over strings of length 0..3 plus lengths "
+        "around the string-cache classes (31..33, 63..65, 100, 128), repeat-constructor, split into a collection, subStringFromTill, bit and binary "
+        "formatters; operation SEQUENCES on three shared objects: every ordered pair (producer of a buffer, operation that releases it) over the 13 "
+        "sequence operations on the same object at three sizes (padding followed by +=, by a second padding, by assignment, by destruction, ...), "
+        "and random sequences of 1..8 (quick) / 1..20 (thorough) operations; "
         "non-trivial = at least one argument string is non-empty or a position is out of range")
 ASSUMPTIONS = ["byte strings without embedded NUL (C strings)", "LP64, size_t = 64 bit", "AtoI/AtoU: the digit string read fits the result type (int / unsigned; every run of at most 9 digits does) -- beyond that AtoI is signed overflow: same contract as atoi",
                "StrNCpy/copyToBuffer/MemCmp are called with buffers at least as large as their contract requires"]
@@ -29,6 +40,8 @@ GROUP1 = ["strlen", "strcmp", "strncmp", "strstr", "memcmp", "contains", "contai
           "findfrom", "substr", "substr1", "lower", "replc", "ordinal"]
 GROUP2 = ["repls", "printable", "append", "plus", "copybuf", "fmt"]
 GROUP3 = ["atoi", "atou", "bytes"]       # number parsing; "bytes" = the per-byte sweeps of every character predicate
+GROUP4 = ["repeat", "pad", "split", "fromtill", "masked", "binary", "seq"]     # life cycle: allocation pairing on every operation and on sequences
+SEQ_ARITY = {":set": 2, ":asg": 2, ":app": 2, ":appc": 2, ":low": 2, ":sub": 4, ":rc": 3, ":rs": 3, ":prt": 2, ":pad": 3, ":fmt": 3, ":rep": 3, ":plus": 3}
 SEARCH_CAP = 20000                       # search mode (a proof no longer builds): the quick families + this many thorough scenarios
 PAIR_OPS = ["strcmp", "strstr", "contains", "containsnc", "starts", "ends", "count", "eq", "eqnc"]
 
@@ -269,9 +282,166 @@ def gen_numbers(ops, tier, rng):
     return out
 
 
+# ---------------------------------------------------------------- life cycle: every buffer comes back once, with its size
+EDGE_LENS = [0, 1, 2, 3, 30, 31, 32, 33, 63, 64, 65, 95, 96, 99, 100, 101, 127, 128, 129, 255, 256, 257]
+
+
+def seq(ops):
+    return ":seq %x %s" % (len(ops), " ".join(ops))
+
+
+def nstr(rng, n, alpha=(0x61, 0x62, 0x41, 0x2c)):
+    return bytes(rng.choice(alpha) for _ in range(n))
+
+
+def seq_producers(rng, n):
+    """operations that leave obj[0] holding a freshly obtained buffer; n = the length scale of the strings"""
+    a = nstr(rng, n); h = nstr(rng, n // 2); k = max(n, 1)
+    return [[":set 0 " + tb(a)],
+            [":set 1 " + tb(a), ":asg 0 1"],
+            [":set 0 " + tb(h), ":set 1 " + tb(a), ":app 0 1"],
+            [":set 0 " + tb(h), ":appc 0 " + tb(a)],
+            [":set 1 " + tb(a.upper()), ":low 0 1"],
+            [":set 1 " + tb(a + b"xyz"), ":sub 0 1 1 %x" % n],
+            [":set 0 " + tb(a), ":rc 0 61 7a"],
+            [":set 0 " + tb(b"a," + a), ":rs 0 " + tb(b"a") + " " + tb(b"AA")],
+            [":set 1 " + tb(a + b"\n"), ":prt 0 1"],
+            [":set 0 " + tb(h), ":set 1 " + tb(a + b"zz"), ":pad 0 1 2e"],
+            [":set 0 " + tb(a + b"zz"), ":set 1 " + tb(h), ":pad 1 0 20"],
+            [":fmt 0 " + tb(h) + " " + tb(a)],
+            [":rep 0 " + tb(b"ab") + " %x" % k],
+            [":set 1 " + tb(h), ":set 2 " + tb(a), ":plus 0 1 2"]]
+
+
+def seq_releasers(rng, n):
+    """operations that make obj[0] give its buffer back (the empty list = the destructor at the end of the scenario)"""
+    b = nstr(rng, max(n // 3, 1))
+    return [[],
+            [":set 0 " + tb(b)],
+            [":set 2 " + tb(b), ":asg 0 2"],
+            [":asg 0 0"],
+            [":appc 0 " + tb(b)],
+            [":app 0 0"],
+            [":set 2 " + tb(b), ":app 0 2"],
+            [":low 0 0"],
+            [":sub 0 0 1 2"],
+            [":rs 0 " + tb(b"a") + " " + tb(b"")],
+            [":rs 0 " + tb(b"b") + " " + tb(b"cde")],
+            [":prt 0 0"],
+            [":set 2 " + tb(nstr(rng, n + 5)), ":pad 0 2 2a"],
+            [":set 2 " + tb(nstr(rng, n + 5)), ":pad 2 0 2a", ":set 1 " + tb(nstr(rng, n + 9)), ":pad 0 1 2b"],
+            [":fmt 0 " + tb(b) + " " + tb(b)],
+            [":rep 0 " + tb(b) + " 2"],
+            [":plus 0 0 0"],
+            [":asg 1 0", ":appc 1 " + tb(b), ":asg 0 1"]]
+
+
+def random_seq(rng, maxops):
+    ops = []
+    lens = [0, 1, 2, 3, 5, 8, 30, 31, 32, 33, 64, 99, 100, 101]
+    for _ in range(rng.randint(1, maxops)):
+        i, j, k = rng.randrange(3), rng.randrange(3), rng.randrange(3)
+        a = nstr(rng, rng.choice(lens) if rng.random() < 0.3 else rng.randint(0, 6))
+        b = nstr(rng, rng.randint(0, 3))
+        w = rng.choice(list(SEQ_ARITY))
+        if w == ":set" or w == ":appc":
+            ops.append("%s %x %s" % (w, i, tb(a)))
+        elif w in (":asg", ":app", ":low", ":prt"):
+            ops.append("%s %x %x" % (w, i, j))
+        elif w == ":sub":
+            ops.append(":sub %x %x %x %x" % (i, j, rng.choice([0, 1, 2, 5, 40, NPOS]), rng.choice([0, 1, 3, 31, 32, NPOS])))
+        elif w == ":rc":
+            ops.append(":rc %x %x %x" % (i, rng.choice([0x61, 0x62, 0x2c, 0]), rng.choice([0x61, 0x78, 0xff, 0x0a])))
+        elif w == ":rs":
+            ops.append(":rs %x %s %s" % (i, tb(rng.choice([b"a", b"ab", b",", b"aa", b"", b])), tb(rng.choice([b"", b"x", b"abab", b]))))
+        elif w == ":pad":
+            ops.append(":pad %x %x %x" % (i, j, rng.choice([0x20, 0x2e, 0x30, 0xff])))
+        elif w == ":fmt":
+            ops.append(":fmt %x %s %s" % (i, tb(a), tb(b)))
+        elif w == ":rep":
+            ops.append(":rep %x %s %x" % (i, tb(b), rng.choice([0, 1, 2, 3, 16, 33])))
+        else:
+            ops.append(":plus %x %x %x" % (i, j, k))
+    return seq(ops)
+
+
+def gen_life(ops, tier, rng):
+    out = []
+    quick = tier == "quick"
+    sm = small_strings(b"ab", 3)
+    if "pad" in ops:
+        # the three ways a padded buffer is released: destruction (here), += and a second padding (sequences below)
+        for a in sm:
+            for b in sm:
+                out.append(":pad %s %s 2e" % (tb(a), tb(b)))
+        for n in EDGE_LENS:
+            for d in (0, 1, 2, 7):
+                a = nstr(rng, n); b = nstr(rng, n + d)
+                out.append(":pad %s %s 20" % (tb(a), tb(b)))
+                out.append(":pad %s %s ff" % (tb(b), tb(a)))
+        for _ in range(100 if quick else 5000):
+            out.append(":pad %s %s %x" % (tb(rstr(rng, 0, 40)), tb(rstr(rng, 0, 40)), rng.choice([0x20, 0x2e, 0x30, 0x01, 0x80, 0xff])))
+    if "repeat" in ops:
+        for a in sm + [b"hello", b"\x80\xff"]:
+            for k in (0, 1, 2, 3, 7):
+                out.append(":repeat %s %x" % (tb(a), k))
+        for n in EDGE_LENS:
+            out.append(":repeat %s %x" % (tb(b"x"), n))
+        for _ in range(40 if quick else 2000):
+            out.append(":repeat %s %x" % (tb(rstr(rng, 0, 6)), rng.randint(0, 40)))
+    if "split" in ops:
+        for a in small_strings(b"a,", 5) + [b",,,", b"a,,b", b"abc", b",", b"one,two,three", b"one,two,three,", b"\n\n", b"x" * 40 + b"," + b"y" * 100]:
+            out.append(":split %s 2c" % tb(a))
+        for _ in range(150 if quick else 6000):
+            a = rstr(rng, 0, 30, [0x61, 0x62, 0x2c, 0x0a, 0x80, 0x2c])
+            out.append(":split %s %x" % (tb(a), rng.choice([0x2c, 0x0a, 0x61, 0x80, 0x7a])))
+    if "fromtill" in ops:
+        for a in small_strings(b"a(,", 4):
+            out.append(":fromtill %s 28 2c" % tb(a))
+        for a in (b"", b"f(a,b)", b"((,", b",(", b"(", b"a"):
+            for c1 in (0x28, 0x2c, 0, 0x61):
+                for c2 in (0x2c, 0x28, 0, 0x29):
+                    out.append(":fromtill %s %x %x" % (tb(a), c1, c2))
+        for _ in range(150 if quick else 6000):
+            a = rstr(rng, 0, 20, [0x61, 0x62, 0x28, 0x2c, 0x29, 0x80])
+            out.append(":fromtill %s %x %x" % (tb(a), rng.choice([0x28, 0x2c, 0x61, 0x80, 0]), rng.choice([0x29, 0x2c, 0x62, 0x28, 0])))
+    if "masked" in ops:
+        vals = [0, 1, 0xff, 0x80, 0xa5, 0x5a5a, 0xffffffff, (1 << 63), (1 << 64) - 1, 0x0123456789abcdef]
+        for bc in list(range(0, 10)) + [16, 255, NPOS]:
+            for v, m in ((0, 0), (0xa5, 0xff), (0xffff, 0xf0f0), ((1 << 64) - 1, (1 << 64) - 1), (0x0123456789abcdef, 0xff00ff00ff00ff00), (1 << 63, 1 << 63)):
+                out.append(":masked %x %x %x" % (v, m, bc))
+        for _ in range(60 if quick else 3000):
+            out.append(":masked %x %x %x" % (rng.choice(vals + [rng.getrandbits(64)]), rng.choice(vals + [rng.getrandbits(64)]), rng.randint(0, 9)))
+    if "binary" in ops:
+        for a in (b"", b"\x00", b"\x0a", b"\xff", b"\x00\x01", b"\x9f\xa0\x0f", bytes(range(0, 256)), bytes(40), bytes(33), bytes(32), bytes(11)):
+            out.append(":binary " + tb(a))
+        for _ in range(40 if quick else 2000):
+            out.append(":binary " + tb(bytes(rng.randrange(256) for _ in range(rng.randint(0, 45)))))
+    if "seq" in ops:
+        for n in (3, 31, 100):
+            prods = seq_producers(rng, n)
+            rels = seq_releasers(rng, n)
+            for pr in prods:
+                for rl in rels:
+                    out.append(seq(pr + rl))
+        # the same object padded, appended to, padded again, assigned, in the orders a caller can choose
+        for x, y in ((b"ab", b"wxyz"), (b"", b"q"), (b"a" * 29, b"b" * 32), (b"a" * 90, b"b" * 131)):
+            base = [":set 0 " + tb(x), ":set 1 " + tb(y)]
+            out.append(seq(base + [":pad 0 1 2e"]))
+            out.append(seq(base + [":pad 1 0 2e"]))
+            out.append(seq(base + [":pad 0 1 2e", ":appc 0 " + tb(b"!")]))
+            out.append(seq(base + [":pad 0 1 2e", ":app 1 0", ":pad 0 1 2d"]))
+            out.append(seq(base + [":pad 0 1 2e", ":asg 2 0", ":asg 0 1"]))
+            out.append(seq(base + [":pad 0 1 2e", ":pad 0 1 2e", ":appc 1 " + tb(b"zz"), ":pad 0 1 30", ":pad 1 2 30"]))
+            out.append(seq(base + [":pad 0 1 2e", ":rs 0 " + tb(b".") + " " + tb(b"--"), ":pad 1 0 2e"]))
+        for _ in range(300 if quick else 20000):
+            out.append(random_seq(rng, 8 if quick else 20))
+    return out
+
+
 def generate(tier, rng):
-    ops = set(GROUP1 + GROUP2 + GROUP3)
-    return gen_numbers(ops, tier, rng) + gen_ops(ops, tier, rng)
+    ops = set(GROUP1 + GROUP2 + GROUP3 + GROUP4)
+    return gen_life(ops, tier, rng) + gen_numbers(ops, tier, rng) + gen_ops(ops, tier, rng)
 
 
 def nontrivial(s):
@@ -282,6 +452,14 @@ def nontrivial(s):
 def classify(s):
     t = s.split()
     labels = ["op" + t[0]]
+    if t[0] == ":seq":
+        ops = seq_split(t)
+        labels.append("seq-length:" + ("1-2" if len(ops) <= 2 else "3-5" if len(ops) <= 5 else "6-10" if len(ops) <= 10 else ">10"))
+        labels += sorted(set("seq has " + o[0] for o in ops))
+        for x, y in zip(ops, ops[1:]):
+            if x[0] == ":pad" and y[1] in x[1:3] and y[0] in (":app", ":appc", ":pad", ":asg", ":set", ":rs"):
+                labels.append("seq: padding then %s of a padded object" % y[0])
+        return labels
     strs = [x for x in t[1:] if x.startswith("$")]
     if strs:
         n = (len(strs[0]) - 1) // 2
@@ -293,13 +471,38 @@ def classify(s):
     return labels
 
 
+def seq_split(t):
+    """the operations of a :seq scenario as token lists"""
+    ops, k = [], 2
+    while k < len(t):
+        n = SEQ_ARITY.get(t[k])
+        if n is None:
+            break
+        ops.append(t[k:k + 1 + n])
+        k += 1 + n
+    return ops
+
+
 def signature(s, o):
     t = s.split()
-    return "%s => %s" % (t[0], "crash" if o.startswith("!") else "wrong result")
+    ot = o.split()
+    if o.startswith("!"):
+        kind = "crash"
+    elif len(ot) >= 3 and ot[-1] == "0":
+        kind = "a buffer not returned exactly once with the size it was requested with"
+    else:
+        kind = "wrong result"
+    return "%s => %s" % (t[0], kind)
 
 
 def shrink(s):
     t = s.split()
+    if t[0] == ":seq":
+        ops = seq_split(t)
+        for k in range(len(ops)):               # drop one operation
+            rest = ops[:k] + ops[k + 1:]
+            if rest:
+                yield seq([" ".join(o) for o in rest])
     for i, x in enumerate(t):
         if x.startswith("$") and len(x) > 1:
             b = bytes.fromhex(x[1:])
